@@ -646,31 +646,17 @@ func (sf *file) prefetchEntireFile(entireCacheID string, chunks []chunkData, tot
 	}
 	defer w.Close()
 
-	batchCount := (totalSize + bufferSize - 1) / bufferSize
-
-	for batchIdx := range batchCount {
-		batchStart := batchIdx * bufferSize
-		batchEnd := min((batchIdx+1)*bufferSize, totalSize)
-
+	// A batch is a run of WHOLE chunks of at most bufferSize bytes (the caller made sure that
+	// no single chunk exceeds bufferSize): batch boundaries never cut through a chunk.
+	for first := 0; first < len(chunks); {
 		var batchChunks []chunkData
-		var batchOffset int64
-		for i := range chunks {
-			chunkStart := chunks[i].offset
-			chunkEnd := chunkStart + chunks[i].size
-
-			if chunkEnd <= batchStart {
-				continue
-			}
-			if chunkStart >= batchEnd {
-				break
-			}
-
-			chunks[i].bufferPos = batchOffset
-			batchOffset += chunks[i].size
-			batchChunks = append(batchChunks, chunks[i])
+		var batchSize int64
+		for first < len(chunks) && (len(batchChunks) == 0 || batchSize+chunks[first].size <= bufferSize) {
+			chunks[first].bufferPos = batchSize
+			batchSize += chunks[first].size
+			batchChunks = append(batchChunks, chunks[first])
+			first++
 		}
-
-		batchSize := batchEnd - batchStart
 		buffer := make([]byte, batchSize)
 
 		eg := errgroup.Group{}
